@@ -21,6 +21,11 @@ claimed = {
    text="Histories of good/bad commits, undisturbed runs, runs killed at the k-th simple command, simultaneous invocations and manual removal of 'current' are executed against the unmodified bin/newpolicy.sh with a local bare repository and stub compiler; after every action the link/number/compile invariants are checked and a final undisturbed run must promote the newest compiling revision. Thorough enumerates every kill position of a run. Known root cause F9/F9b (stale next/) is set aside by signature.",
    note="Trusted: bash DEBUG trap as kill-point enumerator (simple-command boundaries only), stub netspoc compiler, kernel flock; concurrent arm is OS-scheduled.",
    ref="DESIGN.md §3 C19"),
+ "C03": dict(
+   level="exploration", technique="property-based testing (rapid): generated PAN-OS vsys pairs, XML-API script executed on an independent XML-tree model with xpath set/edit/delete/move semantics and referential checks; rulebase compared in order by expanded content; second compare must be empty",
+   text="Generated PAN-OS pairs (rules inserted/deleted/reordered/renamed, groups renamed/shared/split/duplicated, equal names with different values, unknown XML, uuid attributes, ignorable 'any' members, two vsys, response envelope and pretty-printed spelling) are run through the real compare; the emitted commands are executed on the XML model and each targeted vsys must end with the target's rules in order (members compared by expanded content), second compare empty, 'unchanged' only if equivalent. Known root cause F21 (service-group members sent with set) is set aside by signature.",
+   note="Trusted: harness PAN-OS model (harness/panm): set merges, edit replaces, delete/move need existing nodes; calibrated on the repository's expected outputs (TestCorpusPANOS).",
+   ref="DESIGN.md §3 C03"),
  "C07": dict(
    level="exploration", technique="property-based testing (rapid): device decorated with out-of-scope content; frame condition checked on the model after every executed command",
    text="Generated pairs whose device side carries content outside Netspoc's scope; the protected set is computed by the harness from the property's definition (independently of the tool's needed/toDelete marking) and its text must be identical after every step of the emitted script executed on the model.",
